@@ -824,3 +824,61 @@ def c08_reduce_e2e(tier, seed):
                           reduced=red.to_text() if hasattr(red, "to_text") else repr(red))
                     break
     return _finish(r)
+
+
+def a_rs1_rows(tier, seed):
+    """Run-time validation of the assumed contract A-rs1 together with the Python glue of to_ge_polyhedron: the matrix
+    returned for a model is, row for row, the set of rows the contract predicts from the model (ids attached to columns,
+    column bounds, one row per compound, asserted top row without own column)."""
+    import numpy as np
+    import puan
+    import pickle
+    r = _result("rt.a_rs1_rows", "random validated models (all classes, depth<=3, integer leaves incl. 16-bit) and their near-identical "
+                "variants x active in {True, False}: predicted rows {column id -> coefficient, rhs} == actual rows; column "
+                "variables carry the model's ids and bounds; non-trivial = distinct (model, active)")
+    from .gen import variants
+    for m0, rng in _models(tier, seed + 55, n_quick=120, n_thorough=1000, depth=3):
+        for _, m in variants(m0):
+            if not _no_prefixed(m):
+                continue
+            nodes = {}
+            for x in m.flatten():
+                nodes[x.id] = x
+            for active in (True, False):
+                try:
+                    p = pickle.loads(pickle.dumps(m)).to_ge_polyhedron(active=active)
+                except BaseException as e:
+                    _viol(r, "a_rs1.raises", {"model": m.to_text(), "active": active}, error=repr(e)[:200])
+                    continue
+                cols = list(p.variables)
+                r["evaluations"] += 1
+                r["_seen"].add((m.to_text(), active))
+                w = {"model": m.to_text(), "active": active}
+                if cols[0].id != 0 or cols[0].bounds.as_tuple() != (1, 1):
+                    _viol(r, "a_rs1.support-column", w)
+                bad_cols = [str(c.id) for c in cols[1:] if c.id not in nodes or tuple(nodes[c.id].bounds.as_tuple()) != tuple(c.bounds.as_tuple())]
+                if bad_cols:
+                    _viol(r, "a_rs1.column-variables", w, columns=bad_cols)
+                    continue
+                want = []
+                for x in nodes.values():
+                    if is_var(x):
+                        continue
+                    s = int(x.sign)
+                    if active and x.id == m.id:
+                        row = {c.id: s for c in x.propositions}
+                        want.append((x.value, row))
+                        continue
+                    e = sum(min(s * c.bounds.lower, s * c.bounds.upper) for c in x.propositions)
+                    row = {c.id: s for c in x.propositions}
+                    row[x.id] = row.get(x.id, 0) + (e - x.value)
+                    want.append((e, row))
+                got = []
+                M = np.asarray(p).tolist()
+                for rowv in M:
+                    got.append((int(rowv[0]), {cols[j].id: int(v) for j, v in enumerate(rowv) if j > 0 and int(v) != 0}))
+                # rows are compared as a set: a sub-proposition shared by two parents may get its row emitted twice
+                norm = lambda rows: sorted({(b, tuple(sorted((str(k), v) for k, v in row.items() if v != 0))) for b, row in rows})
+                if norm(got) != norm(want):
+                    _viol(r, "a_rs1.rows-differ", w, got=str(norm(got))[:400], want=str(norm(want))[:400])
+    return _finish(r)
